@@ -22,8 +22,9 @@
                belongs to Python, to a living foreign thread that has run a callback, or to an
                exited foreign thread not yet reclaimed (thread states do not pile up)
    The property does not demand that a thread keeps the *same* thread state object from call to
-   call: its[f] simply follows what is observed.  Tokens are addresses in the implementation and can
-   be reused once a thread state is gone, so a token that leaves `live` is forgotten at once. *)
+   call: its[f] simply follows what is observed.  Tokens are PyThreadState_GetID() values in the recorded
+   histories (unique; addresses are reused by CPython and must not be used); a token that leaves
+   `live` is forgotten at once. *)
 EXTENDS Naturals, Sequences, FiniteSets
 CONSTANTS Foreign,     \* threads not created by Python
           Toks,        \* identities of thread states (those belonging to Python threads excluded)
